@@ -185,7 +185,7 @@ func exhaustiveTable() []caseDef {
 		c := base("updater.UnpackArchive", shared.OpUnpackArchive, stAbsent, tmpSandbox)
 		c.StaleTmp = true
 		add(c)
-		for _, dmg := range []string{"truncated_stream", "overstated_size", "truncated_stream:first", "overstated_size:first"} {
+		for _, dmg := range []string{"truncated_stream", "overstated_size", "bad_crc", "truncated_stream:first", "overstated_size:first", "bad_crc:first"} {
 			d := base("updater.UnpackArchive(entry data ends early)", shared.OpUnpackArchive, stAbsent, tmpSandbox)
 			d.Damage = dmg
 			add(d)
@@ -531,7 +531,7 @@ func genCase(t *rapid.T) caseDef {
 	c.SigOnly = strings.Contains(v.writer, "missing signature")
 	c.BadArchive = strings.Contains(v.writer, "bad archive")
 	if strings.Contains(v.writer, "ends early") {
-		c.Damage = rapid.SampledFrom([]string{"truncated_stream", "overstated_size", "truncated_stream:first", "overstated_size:first"}).Draw(t, "damage")
+		c.Damage = rapid.SampledFrom([]string{"truncated_stream", "overstated_size", "bad_crc", "truncated_stream:first", "overstated_size:first", "bad_crc:first"}).Draw(t, "damage")
 	}
 	switch v.op {
 	case shared.OpGetFile, shared.OpDownloadAll, shared.OpUnpackArchive:
